@@ -106,8 +106,25 @@ def check(chk):
     idm = [n for n in g2.stmt_nodes() if n.kind == 'stmt' and 'ID mismatch' in src(n.ast)]
     if len(idm) != 1:
         raise AnalysisError('_execute_after_prepare: id mismatch arm not found')
-    chk.judge(all(fa.knows('self.prepared_statement.query_id == response.query_id') is False for fa, _ in fl2.at(idm[0])), 'C19.terminal', idm[0].ast,
-              'id mismatch detected by comparing the statement id with the re-prepared id', 'id mismatch condition changed')
+    # the expected id: the request's own statement id, or (a batch has no statement of its own) the id remembered when the re-prepare was submitted
+    exp_defs = [st for st in body_walk(eap) if isinstance(st, ast.Assign) and len(st.targets) == 1 and isinstance(st.targets[0], ast.Name) and 'query_id' in src(st.value) and
+                isinstance(st.value, ast.IfExp)]
+    exp_name = src(exp_defs[0].targets[0]) if len(exp_defs) == 1 else None
+    cmp_atoms = ['self.prepared_statement.query_id == response.query_id'] + (['%s == response.query_id' % exp_name] if exp_name else [])
+    chk.judge(all(any(fa.knows(a) is False for a in cmp_atoms) for fa, _ in fl2.at(idm[0])), 'C19.terminal', idm[0].ast,
+              'id mismatch detected by comparing the expected id with the re-prepared id', 'id mismatch condition changed')
+    # ... and that comparison covers every request: the re-send is reached only after it (an expected id is known for batches as well)
+    chk.rule('C19.mismatch', 'the re-prepared id is compared with the id the node reported as unknown for every kind of request (a batch has no prepared_statement of its own)')
+    resend = [n for n in g2.stmt_nodes() if n.kind == 'stmt' and 'self._query(host)' in src(n.ast)]
+    covered = bool(resend) and exp_name is not None and isinstance(exp_defs[0].value, ast.IfExp) and src(exp_defs[0].value.test) == 'self.prepared_statement' and \
+        src(exp_defs[0].value.body) == 'self.prepared_statement.query_id' and src(exp_defs[0].value.orelse) == 'self._reprepared_id' and \
+        all(fa.knows('%s == response.query_id' % exp_name) is True or fa.knows('%s is None' % exp_name) is True for n in resend for fa, _ in fl2.at(n))
+    sub_nodes = [n for n in g.stmt_nodes() if n.kind == 'stmt' and 'self.session.submit(self._reprepare' in src(n.ast)]
+    remembered = [n for n in g.stmt_nodes() if n.kind == 'stmt' and src(n.ast) == 'self._reprepared_id = query_id']
+    covered = covered and len(remembered) == 1 and len(sub_nodes) == 1 and g.dominates(remembered[0], sub_nodes[0])
+    chk.judge(covered, 'C19.mismatch', eap, 'expected id = own statement id or the id remembered at submission; the request is re-sent only when the re-prepared id equals it',
+              'the id comparison applies only when the request has a prepared_statement of its own: a batch whose member statement is re-prepared under another id is re-sent, answered '
+              'UNPREPARED again and re-prepared again until the request times out')
     # resend on success to the same host
     q = [n for n in g2.stmt_nodes() if n.kind == 'stmt' and 'self._query(host)' in src(n.ast)]
     ok = len(q) == 1 and all(fa.knows('response.kind == RESULT_KIND_PREPARED') is True and fa.knows('isinstance(response, ResultMessage)') is True for fa, _ in fl2.at(q[0]))
